@@ -99,7 +99,7 @@ fn all_orders(req: &IppRequestResponse, n: usize, m: usize, has_uri: bool, has_j
     set_order(0);
 }
 
-//@ {"tier":"quick","unwind":2,"stubs":["lossy_ascii","drop_even","drop_odd","bm","canon","reserve"],"replay_tries":400,"desc":"Get-Job-Attributes(uri, any job id).user_name: charset, language, printer-uri, job-id first in every iteration order of the 2 free entries","sym":"job id i32; map order enumerated (2 orders)"}
+//@ {"tier":"quick","unwind":2,"stubs":["lossy_ascii","drop_even","drop_odd","bm","canon","reserve","fmt"],"replay_tries":400,"desc":"Get-Job-Attributes(uri, any job id).user_name: charset, language, printer-uri, job-id first in every iteration order of the 2 free entries","sym":"job id i32; map order enumerated (2 orders)"}
 pub fn c09_get_job_attributes(inp: &mut Inp) {
     let id = inp.i32();
     let req: IppRequestResponse = IppOperationBuilder::get_job_attributes(Uri::from_static(URI), id).user_name("u").build().into_ipp_request();
@@ -108,7 +108,7 @@ pub fn c09_get_job_attributes(inp: &mut Inp) {
     reached();
 }
 
-//@ {"tier":"quick","unwind":2,"stubs":["lossy_ascii","drop_even","drop_odd","bm","canon","reserve"],"replay_tries":400,"desc":"Cancel-Job(uri, any job id).user_name: prefix order under both orders of the free entries","sym":"job id i32; map order enumerated (2)"}
+//@ {"tier":"quick","unwind":2,"stubs":["lossy_ascii","drop_even","drop_odd","bm","canon","reserve","fmt"],"replay_tries":400,"desc":"Cancel-Job(uri, any job id).user_name: prefix order under both orders of the free entries","sym":"job id i32; map order enumerated (2)"}
 pub fn c09_cancel_job(inp: &mut Inp) {
     let id = inp.i32();
     let req: IppRequestResponse = IppOperationBuilder::cancel_job(Uri::from_static(URI), id).user_name("u").build().into_ipp_request();
@@ -117,7 +117,7 @@ pub fn c09_cancel_job(inp: &mut Inp) {
     reached();
 }
 
-//@ {"tier":"quick","unwind":2,"stubs":["lossy_ascii","drop_even","drop_odd","bm","canon","reserve"],"replay_tries":400,"desc":"Send-Document(uri, any job id, any last flag).user_name: prefix order under all 6 orders of the 3 free entries (job-id, last-document, requesting-user-name)","sym":"job id i32, last flag; map order enumerated (6)"}
+//@ {"tier":"quick","unwind":2,"stubs":["lossy_ascii","drop_even","drop_odd","bm","canon","reserve","fmt"],"replay_tries":400,"desc":"Send-Document(uri, any job id, any last flag).user_name: prefix order under all 6 orders of the 3 free entries (job-id, last-document, requesting-user-name)","sym":"job id i32, last flag; map order enumerated (6)"}
 pub fn c09_send_document(inp: &mut Inp) {
     let id = inp.i32();
     let last = inp.bool();
@@ -131,7 +131,7 @@ pub fn c09_send_document(inp: &mut Inp) {
     reached();
 }
 
-//@ {"tier":"thorough","unwind":2,"stubs":["lossy_ascii","drop_even","drop_odd","bm","canon","reserve"],"desc":"Print-Job(uri).user_name.job_title + one further operation attribute added afterwards: charset, language, printer-uri first under all 6 orders of the 3 free entries","sym":"value of the extra attribute i32; map order enumerated (6)"}
+//@ {"tier":"thorough","unwind":2,"stubs":["lossy_ascii","drop_even","drop_odd","bm","canon","reserve","fmt"],"desc":"Print-Job(uri).user_name.job_title + one further operation attribute added afterwards: charset, language, printer-uri first under all 6 orders of the 3 free entries","sym":"value of the extra attribute i32; map order enumerated (6)"}
 pub fn c09_print_job_extra(inp: &mut Inp) {
     let v = inp.i32();
     let mut req: IppRequestResponse = IppOperationBuilder::print_job(Uri::from_static(URI), IppPayload::empty())
@@ -210,7 +210,7 @@ pub fn c09_job_uri_third(inp: &mut Inp) {
     reached();
 }
 
-//@ {"tier":"quick","unwind":2,"stubs":["lossy_ascii","drop_even","drop_odd","bm","canon","reserve"],"desc":"job operations WITHOUT optional arguments (exactly charset, language, printer-uri, job-id): Cancel-Job and Get-Job-Attributes emit all four in order; a request with only charset, language and job-uri emits job-uri third","sym":"job id i32"}
+//@ {"tier":"quick","unwind":2,"stubs":["lossy_ascii","drop_even","drop_odd","bm","canon","reserve","fmt"],"desc":"job operations WITHOUT optional arguments (exactly charset, language, printer-uri, job-id): Cancel-Job and Get-Job-Attributes emit all four in order; a request with only charset, language and job-uri emits job-uri third","sym":"job id i32"}
 pub fn c09_minimal_targets(inp: &mut Inp) {
     let id = inp.i32();
     let req: IppRequestResponse = IppOperationBuilder::cancel_job(Uri::from_static(URI), id).build().into_ipp_request();
